@@ -271,10 +271,7 @@ Proof. vm_compute. reflexivity. Qed.
 Theorem C03_comprehension_is_map : forall (f : id -> option Z) l,
   (forall r, all_some f l = Some r -> map f l = map Some r /\ length r = length l) /\
   (all_some f l = None <-> exists a, In a l /\ f a = None).
-Proof.
-  exact (fun f l => conj (fun r H => conj (all_some_map f l r H) (all_some_length f l r H))
-                         (all_some_none f l)).
-Qed.
+Proof. exact comprehension_is_map. Qed.
 Print Assumptions C03_comprehension_is_map.
 
 Theorem C03_get_is_map : forall st s (names : list Z) (single : bool) mode dflt m,
